@@ -75,6 +75,7 @@ type RunResult struct {
 	Inconc    map[string]int
 	FnSteps   map[string]int
 	Samples   []map[string]interface{}
+	classN    map[string]int
 	Wall      time.Duration
 	mu        sync.Mutex
 }
@@ -273,21 +274,32 @@ func (r *RunResult) finishPath(it *Interp, why string, ex *Explorer) {
 	}
 	r.Steps += int64(it.steps)
 	r.AssertQ += int64(it.assertQ)
-	if (why == "ok" || why == "done") && len(r.Samples) < r.Cfg.Witness+3 && len(it.viols) == 0 {
-		s := map[string]interface{}{"run": r.Cfg.Name, "decisions": ex.decisions(), "end": why}
-		if m := it.sol.model("", it.syms); len(m) > 0 {
-			s["inputs"] = m
-		}
+	if (why == "ok" || why == "done") && len(it.viols) == 0 {
+		// sample passing paths spread over outcome classes (the set of cover labels reached)
 		var cv []string
 		for c := range it.covers {
 			cv = append(cv, c)
 		}
 		sort.Strings(cv)
-		s["covers"] = cv
-		if len(it.records) > 0 {
-			s["witness"] = it.witness()
+		class := strings.Join(cv, ",")
+		max := r.Cfg.Witness
+		if max < 6 {
+			max = 6
 		}
-		r.Samples = append(r.Samples, s)
+		if r.classN == nil {
+			r.classN = map[string]int{}
+		}
+		if len(r.Samples) < max && r.classN[class] < 2+r.Cfg.Witness/8 {
+			r.classN[class]++
+			s := map[string]interface{}{"run": r.Cfg.Name, "decisions": ex.decisions(), "end": why, "covers": cv}
+			if m := it.sol.model("", it.syms); len(m) > 0 {
+				s["inputs"] = m
+			}
+			if len(it.records) > 0 {
+				s["witness"] = it.witness()
+			}
+			r.Samples = append(r.Samples, s)
+		}
 	}
 }
 
